@@ -331,15 +331,23 @@ def union_realloc_value(s, rng, inline):
     return Node('table', 'WU', fields)
 
 
-def wide_value(s, rng, count=130):
-    """root of schema bwide: `count` W tables with fields f0..f13 and f29 present and 6 of f14..f28, distinct patterns"""
+def wide_value(s, rng, count=130, vary_end=False):
+    """root of schema bwide: `count` W tables with fields f0..f13 and f29 present and 6 of f14..f28, distinct patterns
+    (vary_end: f0..f(k-1) and 1..6 of fk..f29 for a random k: vtables of many different lengths, 12..64 bytes)"""
     fields = s.tables['W'].fields
     seen, ws = set(), []
     while len(ws) < count:
-        pat = tuple(sorted(rng.sample(range(14, 29), 6)))
-        if pat in seen: continue
-        seen.add(pat)
-        ids = list(range(14)) + list(pat) + [29]
+        if vary_end:
+            k = rng.randrange(2, 24)
+            pat = tuple(sorted(rng.sample(range(k, 30), rng.randrange(1, 7))))
+            if (k, pat) in seen: continue
+            seen.add((k, pat))
+            ids = list(range(k)) + list(pat)
+        else:
+            pat = tuple(sorted(rng.sample(range(14, 29), 6)))
+            if pat in seen: continue
+            seen.add(pat)
+            ids = list(range(14)) + list(pat) + [29]
         ws.append(Node('table', 'W', [(fields[i], Node('bytes', struct.pack('<i', rng.randint(-2 ** 31, 2 ** 31 - 1) if rng.random() < 0.5 else 1000 + i))) for i in ids]))
     wr = s.tables['WR'].fields
     names = [Node('str', b'n%d' % i + (b'\0x' if i % 7 == 0 else b'')) for i in range(rng.choice([65, 80, 100]))]
@@ -466,7 +474,7 @@ class ValueGen:
         else:
             v = Node('bytes', self.inline(root), root)
         self.pool.pop()
-        opts = {'with_size': r.random() < 0.15, 'ident': r.choice([None, None, b'NSTD', b'\x01\x00\x00\x00']),
+        opts = {'with_size': r.random() < 0.15, 'ident': r.choice([None, None, None, b'NSTD', b'\x01\x00\x00\x00', b'\x00\xbc\xf7\x76']),   # last: a type hash whose first byte on the wire is zero
                 'block_align': r.choice([0, 0, 0, 8, 64]), 'style': 'embed' if r.random() < getattr(self, 'embed_bias', 0.25) else 'se'}
         # flatcc_builder_embed_buffer arguments (used when the node ends up embedded): align 1..256 (0 = the content's own), block_align
         # 0 (inherit) or 1..256, with_size flag
@@ -832,7 +840,7 @@ class ScriptGen:
                     # <field>_nest(B, data, size, align): an existing buffer; align 0 / too small is raised to the struct's alignment
                     # (struct target) resp. defaults to 8 (table target)
                     def plain(x):
-                        if x.kind == 'nested': x.c['with_size'] = False; x.c['style'] = 'se'; plain(x.b)
+                        if x.kind == 'nested': x.c['with_size'] = False; x.c['style'] = 'se'; x.c['ident'] = None; plain(x.b)
                         elif x.kind == 'table':
                             for _, y in x.b: plain(y)
                         elif x.kind == 'offvec':
@@ -966,7 +974,7 @@ class ScriptGen:
             # every depth, including depth 1 (a parent is open whenever the builder's level is positive; before
             # fixes/C15-embed-buffer-inside-top-level-buffer.patch the test was nest_id != 0 and depth 1 lost the vector header)
             def plain(x):
-                if x.kind == 'nested': x.c['with_size'] = False; x.c['style'] = 'se'; plain(x.b)
+                if x.kind == 'nested': x.c['with_size'] = False; x.c['style'] = 'se'; x.c['ident'] = None; plain(x.b)
                 elif x.kind == 'table':
                     for _, v in x.b: plain(v)
                 elif x.kind == 'offvec':
@@ -1026,7 +1034,9 @@ class ScriptGen:
         return self.new()
 
 
-def harness_line(g): return ('buildm ' if getattr(g, 'moving_alloc', False) else 'build ') + ' '.join(g.h)
+def harness_line(g):
+    verb = 'buildd ' if getattr(g, 'default_emitter', False) else 'buildm ' if getattr(g, 'moving_alloc', False) else 'build '
+    return verb + ' '.join(g.h)
 def model_line(g): return 'run ' + ' '.join(g.m)
 
 
